@@ -1,11 +1,13 @@
 import Orb.Proto
 import Orb.Core
+import Orb.CoreNil
+import Orb.Round
 import Orb.Heap
 import Generated.Params
 
-/-! Driver for C06 (Clone / Equal / Bound / Reverse / Orientation). -/
+/-! Driver for C06 (Clone / Equal / Bound / Reverse / Orientation / Round). -/
 namespace Driver.C06
-open Orb Orb.Proto Orb.Core
+open Orb Orb.Proto Orb.Core Orb.CoreNil
 
 def b2s (b : Bool) : String := if b then "1" else "0"
 
@@ -40,31 +42,140 @@ def tightBox (vs : List (Pt Float)) : Option (Bound Float) :=
       ⟨⟨if p.x < b.lo.x then p.x else b.lo.x, if p.y < b.lo.y then p.y else b.lo.y⟩,
        ⟨if p.x > b.hi.x then p.x else b.hi.x, if p.y > b.hi.y then p.y else b.hi.y⟩⟩) ⟨v, v⟩)
 
-/-- structural normal form used by the executable statement of `Equal`:
-    kind, nesting, lengths and every coordinate (as float `==`) -/
-partial def sameStruct : Geom Float → Geom Float → Bool
+/-! ### values with nil members on the wire (`Orb.CoreNil.NGeom`)
+
+Input geometries are written by `gsN` (harness/proto.go): the count token `n` is a nil slice below
+the top level, `nMP` … `nC` a typed nil slice (top level or member of a collection), `nil` the nil
+interface (top level or member of a collection).  Unlike `Orb.Proto.geom` this reader keeps all of it. -/
+
+def npts : P (NPts UInt64) := fun ts =>
+  match ts with
+  | "n" :: ts => some (none, ts)
+  | _ => do
+    let (n, ts) ← nat ts
+    let (l, ts) ← many pt n ts
+    pure (some l, ts)
+
+def nptsL : P (List (NPts UInt64)) := fun ts => do
+  let (n, ts) ← nat ts
+  many npts n ts
+
+def nptss : P (NPtss UInt64) := fun ts =>
+  match ts with
+  | "n" :: ts => some (none, ts)
+  | _ => (nptsL ts).map fun (l, ts) => (some l, ts)
+
+def nptssL : P (List (NPtss UInt64)) := fun ts => do
+  let (n, ts) ← nat ts
+  many nptss n ts
+
+partial def ngeom : P (NGeom UInt64) := fun ts =>
+  match ts with
+  | "nil" :: ts => some (.nilIface, ts)
+  | "nMP" :: ts => some (.multiPoint none, ts)
+  | "nLS" :: ts => some (.lineString none, ts)
+  | "nMLS" :: ts => some (.multiLineString none, ts)
+  | "nR" :: ts => some (.ring none, ts)
+  | "nPG" :: ts => some (.polygon none, ts)
+  | "nMPG" :: ts => some (.multiPolygon none, ts)
+  | "nC" :: ts => some (.nilCollection, ts)
+  | "P" :: ts => (pt ts).map fun (p, ts) => (.point p, ts)
+  | "MP" :: ts => (npts ts).map fun (p, ts) => (.multiPoint p, ts)
+  | "LS" :: ts => (npts ts).map fun (p, ts) => (.lineString p, ts)
+  | "R" :: ts => (npts ts).map fun (p, ts) => (.ring p, ts)
+  | "MLS" :: ts => (nptsL ts).map fun (p, ts) => (.multiLineString (some p), ts)
+  | "PG" :: ts => (nptsL ts).map fun (p, ts) => (.polygon (some p), ts)
+  | "MPG" :: ts => (nptssL ts).map fun (p, ts) => (.multiPolygon (some p), ts)
+  | "B" :: ts => do
+    let (a, ts) ← pt ts
+    let (b, ts) ← pt ts
+    pure (.bound a b, ts)
+  | "C" :: ts => do
+    let (n, ts) ← nat ts
+    let rec go : Nat → Toks → Option (List (NGeom UInt64) × Toks)
+      | 0, ts => some ([], ts)
+      | n+1, ts => do
+        let (g, ts) ← ngeom ts
+        let (gs, ts) ← go n ts
+        pure (g :: gs, ts)
+    let (gs, ts) ← go n ts
+    pure (.collection gs, ts)
+  | _ => none
+
+def showNPts : NPts UInt64 → String
+  | none => "n"
+  | some ps => showPts ps
+def showNPtsL (l : List (NPts UInt64)) : String :=
+  l.foldl (fun s p => s ++ " " ++ showNPts p) (toString l.length)
+def showNPtss : NPtss UInt64 → String
+  | none => "n"
+  | some l => showNPtsL l
+def showNPtssL (l : List (NPtss UInt64)) : String :=
+  l.foldl (fun s p => s ++ " " ++ showNPtss p) (toString l.length)
+
+/-- the printer matching `gsN` -/
+partial def showN : NGeom UInt64 → String
+  | .nilIface => "nil"
+  | .point p => "P " ++ showPt p
+  | .multiPoint none => "nMP"
+  | .multiPoint (some p) => "MP " ++ showPts p
+  | .lineString none => "nLS"
+  | .lineString (some p) => "LS " ++ showPts p
+  | .ring none => "nR"
+  | .ring (some p) => "R " ++ showPts p
+  | .multiLineString none => "nMLS"
+  | .multiLineString (some p) => "MLS " ++ showNPtsL p
+  | .polygon none => "nPG"
+  | .polygon (some p) => "PG " ++ showNPtsL p
+  | .multiPolygon none => "nMPG"
+  | .multiPolygon (some p) => "MPG " ++ showNPtssL p
+  | .bound a b => "B " ++ showPt a ++ " " ++ showPt b
+  | .nilCollection => "nC"
+  | .collection gs => gs.foldl (fun s g => s ++ " " ++ showN g) ("C " ++ toString gs.length)
+
+def toFN (g : NGeom UInt64) : NGeom Float := g.map Float.ofBits
+/-- back to bit patterns; every NaN prints as the one pattern `Float.toBits` gives -/
+def ofFN (g : NGeom Float) : NGeom UInt64 := g.map Float.toBits
+/-- an implementation value with its NaNs canonicalised the same way -/
+def canonN (g : NGeom UInt64) : NGeom UInt64 := ofFN (toFN g)
+
+/-- all coordinates in storage order -/
+partial def coordsN {α : Type} : NGeom α → List α
+  | .nilIface | .nilCollection => []
+  | .point p => [p.x, p.y]
+  | .multiPoint p | .lineString p | .ring p => (CoreNil.ptsOf p).flatMap fun q => [q.x, q.y]
+  | .multiLineString p | .polygon p => (CoreNil.ptssOf p).flatMap fun l => l.flatMap fun q => [q.x, q.y]
+  | .multiPolygon p => (CoreNil.ptsssOf p).flatMap fun pg => pg.flatMap fun l => l.flatMap fun q => [q.x, q.y]
+  | .bound a b => [a.x, a.y, b.x, b.y]
+  | .collection gs => gs.flatMap coordsN
+
+def ptsSame (p q : List (Pt Float)) : Bool :=
+  p.length == q.length && (p.zip q).all fun (a, b) => a.x == b.x && a.y == b.y
+def ptssSame (p q : List (List (Pt Float))) : Bool :=
+  p.length == q.length && (p.zip q).all fun (a, b) => ptsSame a b
+def ptsssSame (p q : List (List (List (Pt Float)))) : Bool :=
+  p.length == q.length && (p.zip q).all fun (a, b) => ptssSame a b
+
+/-- members of a collection value (a nil collection has none) -/
+def membersN {α : Type} : NGeom α → Option (List (NGeom α))
+  | .nilCollection => some []
+  | .collection gs => some gs
+  | _ => none
+
+/-- executable statement of `Equal`: same kind, same nesting, same lengths, every coordinate `==`;
+    a nil slice counts as the empty slice of its type, the nil interface only matches itself -/
+partial def sameStructN : NGeom Float → NGeom Float → Bool
+  | .nilIface, .nilIface => true
   | .point p, .point q => p.x == q.x && p.y == q.y
   | .multiPoint p, .multiPoint q | .lineString p, .lineString q | .ring p, .ring q =>
-    p.length == q.length && (p.zip q).all fun (a, b) => a.x == b.x && a.y == b.y
-  | .multiLineString p, .multiLineString q | .polygon p, .polygon q =>
-    p.length == q.length && (p.zip q).all fun (a, b) => sameStruct (.lineString a) (.lineString b)
-  | .multiPolygon p, .multiPolygon q =>
-    p.length == q.length && (p.zip q).all fun (a, b) => sameStruct (.polygon a) (.polygon b)
+    ptsSame (CoreNil.ptsOf p) (CoreNil.ptsOf q)
+  | .multiLineString p, .multiLineString q | .polygon p, .polygon q => ptssSame (CoreNil.ptssOf p) (CoreNil.ptssOf q)
+  | .multiPolygon p, .multiPolygon q => ptsssSame (CoreNil.ptsssOf p) (CoreNil.ptsssOf q)
   | .bound a b, .bound c d => a.x == c.x && a.y == c.y && b.x == d.x && b.y == d.y
-  | .collection p, .collection q => p.length == q.length && (p.zip q).all fun (a, b) => sameStruct a b
-  | _, _ => false
-
-def normV (v : GVal Float) : Option (Geom Float) :=
-  match v with
-  | .nilIface => none
-  | .nilSlice k => some (emptyOf k)
-  | .val g => some g
-
-def sameStructV (a b : GVal Float) : Bool :=
-  match normV a, normV b with
-  | none, none => true
-  | some g, some h => sameStruct g h
-  | _, _ => false
+  | g, h =>
+    match membersN g, membersN h with
+    | some p, some q => p.length == q.length && (p.zip q).all fun (a, b) => sameStructN a b
+    | _, _ => false
 
 /-- is every `Bound` value inside the geometry well-formed (min ≤ max)? -/
 partial def boundsWF : Geom Float → Bool
@@ -72,68 +183,80 @@ partial def boundsWF : Geom Float → Bool
   | .collection gs => gs.all boundsWF
   | _ => true
 
+partial def hasNilMember {α : Type} : NGeom α → Bool
+  | .collection gs => gs.any fun g => g.isNilIface || hasNilMember g
+  | _ => false
+
+def isTypedNilTop {α : Type} : NGeom α → Bool
+  | .multiPoint none | .lineString none | .multiLineString none | .ring none | .polygon none
+  | .multiPolygon none | .nilCollection => true
+  | _ => false
+
 /-- `geom <g> => <clone> eq indep <bound>` -/
 def handleGeom (inp out : Toks) : String :=
-  match gval inp with
+  match ngeom inp with
   | none => "bad input"
   | some (v, _) =>
-    match gval out with
-    | none => if out == ["panic"] then "propfail panic" else "bad output"
+    if out == ["panic"] then "propfail panic" else
+    if out == ["mutated-argument"] then "propfail argument-mutated" else
+    match ngeom out with
+    | none => "bad output"
     | some (cl, o) =>
       match o with
       | eq :: indep :: bt =>
-        let vF := toFV v
-        let mclone := cloneV v
-        let mb : Option (Bound Float) := match vF with
-          | .nilIface => none
-          | .nilSlice k => some (bound ebF (emptyOf k))
-          | .val g => some (bound ebF g)
-        let model := showGVal mclone ++ " " ++ b2s (equalV vF (toFV mclone)) ++ " 1" ++
+        let vF := toFN v
+        let mclone := cloneN v
+        let mb : Option (Bound Float) := if vF.isNilIface then none else some (boundN ebF vF)
+        let meq := b2s (equalN vF (toFN mclone))
+        let model := showN mclone ++ " " ++ meq ++ " 1" ++
           (match mb with | none => " nobound" | some b => " " ++ showBoundF b)
-        -- implementation's outcome, compared modulo float ==
+        -- implementation's outcome; the clone bit for bit (nil-ness included), bounds modulo float ==
         let implB := (boundP bt).map (·.1)
-        let okClone := showGVal cl == showGVal mclone
+        let okClone := showN cl == showN mclone
         let okBound := match mb, implB with
           | none, none => bt == ["nobound"]
           | some b, some b' => boundEqF b b'
           | _, _ => false
-        let agree := okClone && eq == b2s (equalV vF (toFV mclone)) && okBound
+        let agree := okClone && eq == meq && okBound
         let fin (s : String) : String := if s.startsWith "propfail" || agree then s else "diff " ++ model
         -- executable property on the implementation's outcome (a property failure outranks a mere disagreement)
         fin <|
         if eq != "1" then "propfail clone-not-equal" else
-        if !(sameStructV vF (toFV cl)) then "propfail clone-differs" else
+        if !(sameStructN vF (toFN cl)) then "propfail clone-differs" else
         if indep != "1" then "propfail clone-shares-memory" else
-        match vF, implB with
-        | .val g, some b =>
+        let nm := if hasNilMember v then "-nilmember" else ""
+        match strip vF, implB with
+        | some g, some b =>
           if !boundsWF g then "ok bound-illformed" else
           (match tightBox (bverts g) with
-           | none => if b.isEmpty then "ok empty" else "propfail bound-empty-iff"
+           | none => if !b.isEmpty then "propfail bound-empty-iff"
+                     else if isTypedNilTop v then "ok nilslice" else s!"ok empty{nm}"
            | some t => if b.isEmpty then "propfail bound-empty-iff"
                        else if !boundEqF b t then "propfail bound-tight" else
-                       (match g with | .collection _ => "ok coll" | .point _ => "ok triv-point" | _ => "ok geom"))
-        | .nilSlice _, some b => if b.isEmpty then "ok nilslice" else "propfail bound-empty-iff"
-        | _, _ => "ok triv-nil"
+                       (match g with | .collection _ => s!"ok coll{nm}" | .point _ => "ok triv-point" | _ => "ok geom"))
+        | none, none => "ok triv-nil"
+        | _, _ => "bad output"
       | _ => "bad output"
 
 /-- `pair <g> <h> => eq(g,h) eq(h,g)` -/
 def handlePair (inp out : Toks) : String :=
   match (do
-    let (g, i) ← gval inp
-    let (h, _) ← gval i
-    pure (toFV g, toFV h)) with
+    let (g, i) ← ngeom inp
+    let (h, _) ← ngeom i
+    pure (toFN g, toFN h)) with
   | none => "bad input"
   | some (g, h) =>
-    let m := b2s (equalV g h) ++ " " ++ b2s (equalV h g)
+    let m := b2s (equalN g h) ++ " " ++ b2s (equalN h g)
     if out == ["panic"] then "propfail panic" else
     if out.length != 2 then "bad output" else
-    let agree := out == [b2s (equalV g h), b2s (equalV h g)]
+    let agree := out == [b2s (equalN g h), b2s (equalN h g)]
     let fin (s : String) : String := if s.startsWith "propfail" || agree then s else "diff " ++ m
     fin <|
     let e := out.head! == "1"
     if out.head! != out.getLast! then "propfail equal-symmetric" else
-    if e != sameStructV g h then "propfail equal-structural" else
-    if e then "ok equal" else "ok unequal"
+    if e != sameStructN g h then "propfail equal-structural" else
+    let nm := if hasNilMember g || hasNilMember h then "-nilmember" else ""
+    if e then s!"ok equal{nm}" else s!"ok unequal{nm}"
 
 /-- `bounds b1 b2 b3 p => u12 u21 u12_3 u1_23 ext1p c1p i12 i21 u11` -/
 def handleBounds (inp out : Toks) : String :=
@@ -206,7 +329,10 @@ def handleRev (inp out : Toks) : String :=
       if showPts r2 != showPts ps then "propfail reverse-involution" else
       if ps.length ≤ 1 then "ok triv-short" else "ok rev"
 
-/-- `orient <n pts> => o o_rev` (integer coordinates: exact in float64 and in `Int`) -/
+/-- `orient <n pts> => o o_rev`.  The Float twin is compared on every input.  The clause "reversing
+    negates the orientation" is a statement of exact arithmetic (theorem `orientation_reverse`); it is
+    judged where the float signs are the exact ones — the exact value is computed over `Rat` from the
+    bit patterns, so half-integers and general finite floats are judged too, not only integers. -/
 def handleOrient (inp out : Toks) : String :=
   match pts inp with
   | none => "bad input"
@@ -214,25 +340,118 @@ def handleOrient (inp out : Toks) : String :=
     if out == ["panic"] then "propfail panic" else
     match out with
     | [o, orv] =>
-      let ints := ps.filterMap fun p => do
-        let x ← bitsToInt? p.x
-        let y ← bitsToInt? p.y
-        pure (⟨x, y⟩ : Pt Int)
+      let rats := ps.filterMap fun p => do
+        let x ← bitsToRat? p.x
+        let y ← bitsToRat? p.y
+        pure (⟨x, y⟩ : Pt Rat)
+      let isInt := ps.all fun p => (bitsToInt? p.x).isSome && (bitsToInt? p.y).isSome
       let fl := ps.map (mapPt Float.ofBits)
       let mF := Core.orientation fl
       let mFr := Core.orientation (Core.reverse fl)
       let agree := toString mF == o && toString mFr == orv
       let fin (s : String) : String := if s.startsWith "propfail" || agree then s else s!"diff {mF} {mFr}"
       fin <|
-      if ints.length != ps.length then "skip non-integer" else
-      let mI := Core.orientation ints
-      if toString mI != toString mF then "skip rounding-sensitive" else
+      if rats.length != ps.length then "skip non-finite" else
+      let mI := Core.orientation rats
+      let mIr := Core.orientation (Core.reverse rats)
+      if mI != mF || mIr != mFr then "skip rounding-sensitive" else
       if toString mI != o then "propfail orientation-sign" else
       -- property: reversing negates the orientation
       if orv.toInt? != some (-mI) then "propfail orientation-reverse" else
-      if mI == 0 then "ok degenerate" else "ok orient"
+      let k := if isInt then "" else "-float"
+      if mI == 0 then s!"ok degenerate{k}" else s!"ok orient{k}"
     | _ => "bad output"
 
+/-! ### `orb.Round` (model `Orb.Round`, Float instance `goEnv`) -/
+
+/-- kind, nesting, lengths and nil-ness of a value: the value with its coordinates erased -/
+def shapeN (g : NGeom UInt64) : String := showN (g.map fun _ => (0 : UInt64))
+
+def isTypedNil {α : Type} : NGeom α → Bool
+  | .multiPoint none | .lineString none | .multiLineString none | .ring none | .polygon none
+  | .multiPolygon none | .nilCollection => true
+  | _ => false
+
+partial def hasTypedNilMember {α : Type} : NGeom α → Bool
+  | .collection gs => gs.any fun g => isTypedNil g || hasTypedNilMember g
+  | _ => false
+
+partial def hasCollMember {α : Type} : NGeom α → Bool
+  | .collection gs => !gs.isEmpty
+  | _ => false
+
+/-- the shape with every typed nil slice (top level or member of a collection, at any depth) replaced
+    by the nil interface: what `Round` returns for it -/
+partial def typedNilToIface {α : Type} : NGeom α → NGeom α
+  | .collection gs => .collection (gs.map typedNilToIface)
+  | g => if isTypedNil g then .nilIface else g
+
+/-- `round k <factor…> <g> => <result> <argument after the call> <same-memory> <result of a second call>`
+    and `roundd <default factor bits> <g> => …` (no factor argument, `orb.DefaultRoundingFactor` set
+    to the given value for the call). -/
+def handleRoundWith (dflt : Float) (factors : List Int) (inp out : Toks) : String :=
+  match ngeom inp with
+  | none => "bad input"
+  | some (v, _) =>
+    if out == ["panic"] then "propfail panic" else
+    match (do
+      let (r, o) ← ngeom out
+      let (a, o) ← ngeom o
+      let (same, o) ← nat o
+      let (r2, o) ← ngeom o
+      if o != [] then none else pure (r, a, same, r2)) with
+    | none => "bad output"
+    | some (r, a, same, r2) =>
+      let env := Orb.Round.goEnv dflt
+      let f := Orb.Round.factorOf env factors
+      let vF := toFN v
+      -- the model (twin): result, the argument afterwards, a second call on the result
+      let mr := Orb.Round.roundN env f vF
+      let ma := Orb.Round.argAfterN env f vF
+      let mr2 := Orb.Round.roundN env f mr
+      let model := showN (ofFN mr) ++ " " ++ showN (ofFN ma) ++ " 1 " ++ showN (ofFN mr2)
+      let agree := showN (canonN r) == showN (ofFN mr) && showN (canonN a) == showN (ofFN ma) && same == 1 &&
+        showN (canonN r2) == showN (ofFN mr2)
+      let fin (s : String) : String := if s.startsWith "propfail" || agree then s else "diff " ++ model
+      fin <|
+      -- (1) kind, nesting, lengths and nil-ness are those of the argument
+      if shapeN r != shapeN v then "propfail round-shape" else
+      -- (2) every coordinate x became math.Round(x*f)/f, with the ONE factor of the call at every depth
+      let want := (coordsN vF).map fun x => (Orb.Round.rc env.rnd f x).toBits
+      let got := (coordsN (toFN r)).map Float.toBits
+      if want != got then "propfail round-vertex" else
+      -- (3) the argument afterwards: a Point / Bound is passed by value and a typed nil slice stays what it
+      --     was; everything else reads as the result
+      let byValue := (match v with | .point _ | .bound _ _ => true | _ => false) || isTypedNil v
+      if byValue && showN (canonN a) != showN (canonN v) then "propfail round-argument-by-value" else
+      if !byValue && showN (canonN a) != showN (canonN r) then "propfail round-argument-in-place" else
+      -- (4) idempotent whenever round(round(x*f)/f*f) = round(x*f) for every coordinate (theorem round_idem)
+      let hyp := (coordsN vF).all fun x =>
+        (env.rnd (Orb.Round.rc env.rnd f x * f)).toBits == (env.rnd (x * f)).toBits
+      if hyp && showN (canonN r2) != showN (canonN r) then "propfail round-idempotent" else
+      -- Go's math.Round against libm's round (what `Float.round` is)
+      if !((coordsN vF).all fun x => (env.rnd (x * f)).toBits == (Float.round (x * f)).toBits) then "diff goRound-vs-libm" else
+      let cs := coordsN (toFN r)
+      let k := if v.isNilIface then "triv-round-nil"
+        else if cs.isEmpty then "round-novertex"
+        else if cs.any Float.isNaN then "round-nan"
+        else if cs.any Float.isInf then "round-inf"
+        else if hyp then "round" else "round-not-idempotent"
+      let c := match v with | .collection _ => "-coll" | _ => ""
+      s!"ok {k}{c}"
+
+def handleRound (inp out : Toks) : String :=
+  match (do
+    let (k, t) ← nat inp
+    let (fs, t) ← many Orb.Proto.int k t
+    pure (fs, t)) with
+  | none => "bad input"
+  | some (fs, t) => handleRoundWith 1000000.0 fs t out
+
+def handleRoundD (inp out : Toks) : String :=
+  match bits inp with
+  | none => "bad input"
+  | some (d, t) => handleRoundWith (Float.ofBits d) [] t out
 
 /-! ### alias structure: the heap model `Orb.Heap` against the real backing arrays -/
 
@@ -287,6 +506,7 @@ def handleAlias (inp out : Toks) : String :=
     let σ : Heap.Store UInt64 := slicesOf g
     if slots.length != σ.length || !((slots.zipIdx).all fun (s, ix) => s ≤ ix && slots.getD s 0 == s) then "bad slots" else
     if out == ["panic"] then "propfail panic" else
+    if out == ["mutated-argument"] then "propfail argument-mutated" else
     -- the model: original headers, the clone call, footprints, one write through either side
     let hg := (toHeap g slots).1
     let r := Heap.clone σ hg
@@ -355,6 +575,8 @@ def handle (ts : Toks) : String :=
     | "bounds" => handleBounds inp out
     | "rev" => handleRev inp out
     | "orient" => handleOrient inp out
+    | "round" => handleRound inp out
+    | "roundd" => handleRoundD inp out
     | "alias" => handleAlias inp out
     | _ => "bad op " ++ op
   | [] => "bad empty"
